@@ -100,9 +100,10 @@ Qed.
 
 Lemma step_preserves st o r st' : memo_ok st -> step st o = (r, st') -> memo_ok st'.
 Proof.
-  intros Hm H. destruct o as [|tn fn sg allow|tn sg allow|tn fn allow]; simpl in H.
+  intros Hm H. destruct o as [|rv|tn fn sg allow|tn sg allow|tn fn allow]; simpl in H.
   - destruct (m_memo st) eqn:Em; [inversion H; subst; exact Hm|].
     destruct (validate_model (m_schema st)) eqn:Ev; inversion H; subst; unfold memo_ok; simpl; auto.
+  - destruct (if rv then _ else _); inversion H; subst; exact Hm.
   - destruct (str_eqb fn _).
     + destruct (do_register_default st tn sg false false) as [r0 st0] eqn:Ed.
       apply default_preserves in Ed; [|exact Hm].
@@ -137,6 +138,20 @@ Proof.
   destruct Hin as [He|Hin].
   - inversion He; subst. eapply validate_fresh; eassumption.
   - eapply IH; [|exact Hin]. eapply step_preserves; eassumption.
+Qed.
+
+(* direct validate_schema calls: the fresh verdict for the requested rule set *)
+Definition direct_verdict (rv : bool) (s : schema) : step_result :=
+  match (if rv then validate_model s else validate_structural s) with [] => RAccepted | e => RInvalid e end.
+
+Theorem direct_fresh : forall ops st st1 rv r,
+  In (st1, OpValidateSchema rv, r) (trace st ops) -> r = direct_verdict rv (m_schema st1).
+Proof.
+  induction ops as [|o ops IH]; intros st st1 rv r Hin; [destruct Hin|].
+  simpl in Hin. destruct (step st o) as [r0 st'] eqn:Es. destruct Hin as [He|Hin].
+  - inversion He; subst. simpl in Es. unfold direct_verdict.
+    destruct (if rv then _ else _); inversion Es; reflexivity.
+  - eapply IH; exact Hin.
 Qed.
 
 Lemma initial_memo_ok s : memo_ok (initial s).
